@@ -14,6 +14,14 @@ DEFAULTS = {
     "d2_last4": [2, -5, 4, -1],
     "d2_first3": [1, -2, 1],
     "d2_last3": [1, -2, 1],
+    # Mesh.is_aligned(tolerance=...) default, Region(tolerance_factor=...) default
+    "align_tolerance_default": Fraction(1, 10 ** 12),
+    "region_tf_default": Fraction(1, 10 ** 12),
+    # OVF binary check values: writer table (bin_rep) and reader table (check)
+    "ovf_write_check4": Fraction(1234567),
+    "ovf_write_check8": Fraction(123456789012345),
+    "ovf_read_check4": Fraction(1234567),
+    "ovf_read_check8": Fraction(123456789012345),
 }
 
 
@@ -90,12 +98,55 @@ def _stencils(repo, found):
                             found["d2_last" + suffix] = [co.get(-1 - i, 0) for i in range(k)]
 
 
+def _default_of(fn, name):
+    args = fn.args
+    pos = args.args
+    for a, d in zip(pos[len(pos) - len(args.defaults):], args.defaults):
+        if a.arg == name:
+            return _num(d)
+    for a, d in zip(args.kwonlyargs, args.kw_defaults):
+        if a.arg == name and d is not None:
+            return _num(d)
+    return None
+
+
+def _misc(repo, found):
+    mesh = ast.parse(open(os.path.join(repo, "discretisedfield", "mesh.py")).read())
+    f = _func(mesh, "Mesh", "is_aligned")
+    if f is not None:
+        v = _default_of(f, "tolerance")
+        if v is not None:
+            found["align_tolerance_default"] = v
+    region = ast.parse(open(os.path.join(repo, "discretisedfield", "region.py")).read())
+    f = _func(region, "Region", "__init__")
+    if f is not None:
+        v = _default_of(f, "tolerance_factor")
+        if v is not None:
+            found["region_tf_default"] = v
+    ovf = ast.parse(open(os.path.join(repo, "discretisedfield", "io", "ovf.py")).read())
+    for n in ast.walk(ovf):
+        if isinstance(n, ast.Assign) and len(n.targets) == 1 and isinstance(n.value, ast.Dict):
+            name = getattr(n.targets[0], "id", "")
+            if name == "bin_rep":
+                for k, v in zip(n.value.keys, n.value.values):
+                    if isinstance(k, ast.Constant) and isinstance(v, ast.Tuple) and len(v.elts) == 2:
+                        c = _num(v.elts[1])
+                        if c is not None and k.value in ("bin4", "bin8"):
+                            found["ovf_write_check" + k.value[-1]] = c
+            if name == "check":
+                for k, v in zip(n.value.keys, n.value.values):
+                    c = _num(v)
+                    if isinstance(k, ast.Constant) and c is not None and k.value in (4, 8):
+                        found["ovf_read_check" + str(k.value)] = c
+
+
 def extract(repo):
     found = {}
-    try:
-        _stencils(repo, found)
-    except Exception:  # noqa: BLE001 - fail-soft per group
-        pass
+    for grp in (_stencils, _misc):
+        try:
+            grp(repo, found)
+        except Exception:  # noqa: BLE001 - fail-soft per group
+            pass
     mesh = ast.parse(open(os.path.join(repo, "discretisedfield", "mesh.py")).read())
     f = _func(mesh, "Mesh", "index2point")
     if f is not None:
